@@ -110,9 +110,9 @@ PROPS["C06"] = {
 
 PROPS["C17"] = {
     "level": "proof",
-    "verus": {"language": ["Language::new", "Language::from_code", "Language::code", "Language::from_tag"]},
+    "verus": {"language": ["Language::new", "Language::from_code", "Language::code", "Language::from_tag", "Language::tag"]},
     "assumptions": [
-        "std's binary_search_by_key returns Ok(i) only with key(i) == target and Err only when the target is absent from a sorted slice (the table's sortedness follows from lang_tag_matches_table holding for every code)",
+        "Language::tag is proved (Verus, all 65536 codes) RELATIVE to the table: 'und' when no entry has the code's low 10 bits, else the listed sublanguage's tag for the high 6 bits, else the bare language tag. Trusted: std's binary_search_by_key on a strictly sorted slice returns Ok(i) with key(i) == target, Err only when the target is absent (shim vx_bsearch_key0); the strict sortedness of the language table and of every sublanguage list is checked on the real table by kani:lang_table_sorted (complete) and enters the Verus proof as axiom_lang_table_sorted",
         "from_tag is proved (Verus, all tag strings) RELATIVE to the table: language = first entry whose tag equals the part before the first '-', region = first sublanguage whose tag equals the whole tag, else that language's neutral code, else 0. That every table tag maps to ITS OWN code additionally needs the table facts 'tags are unique' and 'a sublanguage tag starts with its language tag + \"-\"' (the repository's own unit tests lang_tags_are_unique / sublang_tags_are_unique / sublang_tags_start_with_lang_tag check them; not re-proved here)",
         "trusted shims: LANGUAGES reached through vx_languages(), tag.splitn(2,'-').collect() through vx_splitn2 (prelude/langtable.rs); the debug_assert in Language::new is dropped (x8drop) because it depends on table contents",
     ],
